@@ -262,9 +262,59 @@ fn patch_msm(rng: &mut Rng, p: &mut [u8], ns: usize, ng: usize) {
     }
 }
 
-fn patch_bias(rng: &mut Rng, p: &mut [u8], n: u16) -> Hostile {
+fn patch_bias(rng: &mut Rng, p: &mut Vec<u8>, n: u16) -> Hostile {
     // structured 1059/1065 body: sat count, per-sat id + bias count + biases
     let (cbit, idw) = if n == 1059 { (layout::M1059_COUNT_BIT, 6) } else { (layout::M1065_COUNT_BIT, 5) };
+    if rng.chance(1, 5) {
+        // the list capacity (390) reached exactly at the end of a block -- or one short of it, or one past it --
+        // and then more blocks: uniform block sizes dividing 390 or a random partition
+        p.resize(1023, 0);
+        let recognised: Vec<u8> = if n == 1059 { crate::oracle::sig::SSR_GPS.iter().map(|x| x.0).collect() } else { crate::oracle::sig::SSR_GLO.iter().map(|x| x.0).collect() };
+        let target = (390 + rng.range(-1, 1)) as usize;
+        let mut blocks: Vec<usize> = Vec::new();
+        if rng.bool() {
+            let c = *rng.pick(&[10usize, 13, 15, 26, 30]);
+            while blocks.iter().sum::<usize>() + c <= target {
+                blocks.push(c);
+            }
+            let rest = target - blocks.iter().sum::<usize>();
+            if rest > 0 {
+                blocks.push(rest);
+            }
+        } else {
+            while blocks.iter().sum::<usize>() < target {
+                let left = target - blocks.iter().sum::<usize>();
+                blocks.push((rng.range(7, 31) as usize).min(left));
+            }
+        }
+        for _ in 0..rng.range(1, 3) {
+            blocks.push(rng.range(1, 6) as usize);
+        }
+        blocks.truncate(63);
+        bits::write(p, cbit, 6, blocks.len() as u128);
+        let mut pos = cbit + 6;
+        let ids: Vec<u64> = {
+            let mut v: Vec<u64> = (0..(1u64 << idw)).collect();
+            rng.shuffle(&mut v);
+            v
+        };
+        for (bi, &nb) in blocks.iter().enumerate() {
+            if pos + idw + 5 + nb * 19 > 1023 * 8 {
+                break;
+            }
+            bits::write(p, pos, idw, ids[bi % ids.len()] as u128);
+            pos += idw;
+            bits::write(p, pos, 5, nb as u128);
+            pos += 5;
+            for _ in 0..nb {
+                bits::write(p, pos, 5, *rng.pick(&recognised) as u128);
+                bits::write(p, pos + 5, 14, rng.below(1 << 14) as u128);
+                pos += 19;
+            }
+        }
+        p.truncate(((pos + 7) / 8).min(1023));
+        return Hostile::BiasOverflow;
+    }
     let total_bits = p.len() * 8;
     if total_bits < cbit + 6 {
         return Hostile::None;
@@ -470,8 +520,14 @@ pub fn stream(rng: &mut Rng, max_len: usize) -> (Vec<u8>, u32) {
             break;
         }
         let start = s.len();
-        let k = rng.below(15);
+        let k = rng.below(16);
         match k {
+            15 => {
+                // what real links put between frames: line ends, other protocols' sync bytes, text
+                const DELIMITERS: [&[u8]; 10] = [b"\r\n", b"\n", b"\r", b"\r\n\r\n", b"$GPGGA,123519,4807.038,N*47\r\n", &[0xB5, 0x62, 0x01, 0x07], &[0x24, 0x40], &[0x10, 0x03], &[0x7E], b"ICY 200 OK\r\n"];
+                s.extend_from_slice(*rng.pick(&DELIMITERS));
+                tags |= 8192;
+            }
             14 => {
                 // a valid frame whose checksum is 00 00 00 (payload ends with the CRC-24Q of
                 // everything before it) or whose register passes through zero mid-frame
@@ -756,7 +812,7 @@ fn pick_len(rng: &mut Rng) -> usize {
     }
 }
 
-pub const STREAM_TAGS: [&str; 13] = [
+pub const STREAM_TAGS: [&str; 14] = [
     "valid_random_frame",
     "valid_typed_frame",
     "garbage",
@@ -770,4 +826,5 @@ pub const STREAM_TAGS: [&str; 13] = [
     "frame_with_preamble_lookalike_header",
     "previous_frame_repeated_with_variation",
     "frame_with_zero_checksum_or_zero_register",
+    "line_ends_and_foreign_protocol_bytes_between_frames",
 ];
